@@ -823,7 +823,7 @@ pub fn main(args: Args) {
     ));
     run.assume("the CLI runs analysis and emission on its 8 MiB main thread; the language server runs the same passes on a 16 MiB thread: cases run on 8 MiB");
     run.assume("Emitter::emit is run whenever the analyzer passes returned (with or without error diagnostics); `veryl build` itself stops before emission when errors exist, which the violation text states");
-    run.assume("a CPU-time overrun or an allocation failure under RLIMIT_AS is a suspect: violation only after 3 solitary reproductions with 600 s CPU each (10x the nominal 60 s case budget; 30 s makes a suspect) and 2x the address space, otherwise inconclusive for that case");
+    run.assume("a CPU-time overrun or an allocation failure under RLIMIT_AS is a suspect: violation only after 3 solitary reproductions with 600 s CPU each (10x the nominal 60 s case budget; 20 s CPU in the quick tier, 30 s in the thorough tier make a suspect; only the thorough tier decides suspects) and 2x the address space, otherwise inconclusive for that case");
 
     let mut args = args;
     if let Some(j) = args.get("jobs").and_then(|x| x.parse::<usize>().ok()) {
@@ -832,7 +832,7 @@ pub fn main(args: Args) {
     let corpus = Arc::new(vcommon::corpus::all_veryl());
     let plan = Arc::new(plan(&args, corpus.len()));
     let exe = std::env::current_exe().expect("current_exe");
-    let cpu_budget: f64 = args.get("cpu_budget").and_then(|x| x.parse().ok()).unwrap_or(30.0);
+    let cpu_budget: f64 = args.get("cpu_budget").and_then(|x| x.parse().ok()).unwrap_or(if args.thorough() { 30.0 } else { 20.0 });
     // a suspect is decided with 10x the nominal 60 s per-case budget, the same in both tiers
     let decide_budget: f64 = args.get("decide_budget").and_then(|x| x.parse().ok()).unwrap_or(600.0);
     let as_limit: u64 = args.get("as_limit_gib").and_then(|x| x.parse::<u64>().ok()).unwrap_or(4) << 30;
